@@ -21,6 +21,8 @@ FUNCS = {
     "atan": math.atan,
     "atanh": math.atanh,
     "spence": lambda u: li2(1 - u),
+    "li3": lambda x: float(mpmath.polylog(3, x).real),
+    "logabs": lambda x: math.log(abs(x)),
 }
 
 MP_FUNCS = {
@@ -31,6 +33,8 @@ MP_FUNCS = {
     "atan": mpmath.atan,
     "atanh": mpmath.atanh,
     "spence": lambda u: mpmath.polylog(2, 1 - u),
+    "li3": lambda x: mpmath.polylog(3, x).real,
+    "logabs": lambda x: mpmath.log(abs(x)),
 }
 
 
